@@ -10,7 +10,7 @@ from vf.sx.ob import Case
 
 INTS = [0, 1, -1, 127, 128, -128, -129, 255, 256, 32767, 32768, -32768, -32769, 65535, 65536,
         2 ** 31 - 1, 2 ** 31, -2 ** 31, -2 ** 31 - 1, 2 ** 32 - 1, 2 ** 32, 5, 5]
-FLOATS = [0.0, 1.0, -1.5, 0.1, 1 / 3, 1.2345e-5, 1.23456789, 123456.789, 1e6 + 0.1, -0.001, 2.5e-8, 99999.5, -13.206373, -123456.789012, -2300.000001, 0.0012, 3.0e6, 1e10, 7e-12]
+FLOATS = [0.0, 1.0, -1.5, 0.1, 1 / 3, 1.2345e-5, 1.23456789, 123456.789, 1e6 + 0.1, -0.001, 2.5e-8, 99999.5, -13.206373, -123456.789012, -2300.000001, 0.0012, 1.5e-12, 3e-11, 0.123456789012, 3.0e6, 1e10, 7e-12]
 TOLS = [1e-6, 1e-3, 1e-9]
 STRS = ["", "a", "abc", "a", "é", "x y", "ALA", ""]
 
@@ -80,12 +80,22 @@ def check_floats(i, j, t, level):
             comp = pdbx.compress(cat, float_tolerance=tol)
             got = pdbx.BinaryCIFCategory.deserialize(comp.serialize())["x"].as_array()
         else:
-            f = pdbx.BinaryCIFFile({"b": pdbx.BinaryCIFBlock({"c": pdbx.BinaryCIFCategory({"x": arr})})})
+            # whole file: block, category and column names are data too (BinaryCIF stores category names with one
+            # leading '_' added; names that begin with underscores themselves must come back unchanged)
+            names = ["c", "_u", "__v", "d_"]
+            f = pdbx.BinaryCIFFile({"b": pdbx.BinaryCIFBlock({nm: pdbx.BinaryCIFCategory({"x": arr, "_y": arr}) for nm in names}),
+                                    "_b2": pdbx.BinaryCIFBlock({"c": pdbx.BinaryCIFCategory({"x": arr})})})
             comp = pdbx.compress(f, float_tolerance=tol)
             buf = io.BytesIO()
             comp.write(buf)
             buf.seek(0)
-            got = pdbx.BinaryCIFFile.read(buf)["b"]["c"]["x"].as_array()
+            back = pdbx.BinaryCIFFile.read(buf)
+            if list(back.keys()) != ["b", "_b2"] or list(back["b"].keys()) != names or list(back["b"]["__v"].keys()) != ["x", "_y"]:
+                return f"names read back: blocks {list(back.keys())}, categories {list(back['b'].keys())}"
+            for nm in names[1:]:
+                if back["b"][nm]["_y"].as_array().tolist() != back["b"]["c"]["x"].as_array().tolist():
+                    return f"category {nm!r} read back with different data"
+            got = back["b"]["c"]["x"].as_array()
         for a, g in zip(arr.tolist(), got.tolist()):
             # float32 data cannot be more exact than its own precision
             eff = max(tol, 1.2e-7 if dt is np.float32 else 0)
